@@ -123,10 +123,18 @@ OpOf(e) ==
      t |-> IF Has(e, "t") THEN e.t ELSE 0,
      h |-> IF Has(e, "h") THEN e.h ELSE 0,
      s |-> IF Has(e, "s") THEN e.s ELSE FALSE]
+\* ga/gh/gs = what age()/expiration()/on_server() return right after the operation; for clear() they decide
+\* which of the two admissible readings the implementation follows
+Getters(S) == <<S.age, S.how, S.srv>>
 TOp ==
     /\ Is("Op")
+    /\ cur.ph = "ops"
     /\ (Has(Ev, "k") => Ev.k \in Keys)
-    /\ Op(OpOf(Ev)) /\ UNCHANGED cnt
+    /\ LET o0 == OpOf(Ev)
+           o  == IF Ev.op = "clear" /\ Getters(ApplyOp(cur.S, o0)) # <<Ev.ga, Ev.gh, Ev.gs>> THEN [o0 EXCEPT !.v = 1] ELSE o0
+       IN /\ IF R("Ops") THEN TRUE ELSE Getters(ApplyOp(cur.S, o)) = <<Ev.ga, Ev.gh, Ev.gs>>
+          /\ Op(o)
+    /\ UNCHANGED cnt
 
 (* Saved carries the session cookie now in the jar (ck: kind,id,exp + the deadline dl that cookie *)
 (* designates, f = whether that could be read back), the next line (Jar) the exposed cookies.     *)
